@@ -13,17 +13,18 @@
       the set, one that cannot is ignored, a deletion removes it;
     - [fresh fx S] the model after loading the sets [S] once into an empty instance;
     - [wf_history] a rule set is only created when it does not exist;
-    - [no_guard ops] none of the guards of the recorded findings C06-F1 … F6 fires
-      on [ops].  ([guard_F3] and [guard_F5] are about node compression and key
-      names, which the abstract index does not have; they are hypotheses here
-      because the implementation is only claimed to behave like this model outside
-      them — see the level note.) *)
+    - [no_guard_fx fx ops] none of the guards of the findings C06-F1 … F6 that the
+      code still has fires on [ops]; [no_guard_fx no_fix] is all six guards.
+      ([guard_F3] and [guard_F5] are about node compression and stale key names,
+      which the abstract index does not have; they are hypotheses here because the
+      implementation is only claimed to behave like this model outside them — see
+      the level note.  With the repairs they are not needed.) *)
 From HV Require Import Base.Prelude C06.Pat C06.Model C06.Spec C06.Tree C06.Proofs C06.Witness.
 
 (** the index after any history is the index of a fresh load of the current
     rule sets (the index is kept in a canonical order, so this is equality) *)
 Theorem C06_history_equals_fresh : forall fx ops,
-  wf_history ops = true -> no_guard ops = true ->
+  wf_history ops = true -> no_guard_fx fx ops = true ->
   index (run fx ops) = index (fresh fx (current ops)).
 Proof. exact history_equals_fresh. Qed.
 Print Assumptions C06_history_equals_fresh.
@@ -31,7 +32,7 @@ Print Assumptions C06_history_equals_fresh.
 (** hence every request, under every outcome of the rules' conditions, finds the
     same rule as in a fresh instance *)
 Theorem C06_lookups_equal_fresh : forall fx ops,
-  wf_history ops = true -> no_guard ops = true ->
+  wf_history ops = true -> no_guard_fx fx ops = true ->
   forall pinned_lookup path (conditions : route -> bool),
     find_rule pinned_lookup (index (run fx ops)) path conditions =
     find_rule pinned_lookup (index (fresh fx (current ops))) path conditions.
@@ -49,7 +50,7 @@ Print Assumptions C06_rejected_is_noop.
     (invalid path expression, expression owned by another rule set), and then
     nothing changes *)
 Theorem C06_rejected_iff_cannot_apply : forall fx ops o,
-  wf_history (ops ++ [o]) = true -> no_guard (ops ++ [o]) = true ->
+  wf_history (ops ++ [o]) = true -> no_guard_fx fx (ops ++ [o]) = true ->
   exists st' res, step fx (run fx ops) o = (st', res) /\
     (res = None <-> spec_ok (current ops) o = true) /\ (res <> None -> st' = run fx ops).
 Proof. exact rejected_iff_cannot_apply. Qed.
@@ -58,7 +59,7 @@ Print Assumptions C06_rejected_iff_cannot_apply.
 (** rules of deleted or replaced versions never match again: whatever a lookup
     returns belongs to the current version of an existing rule set *)
 Theorem C06_deleted_never_match : forall fx ops,
-  wf_history ops = true -> no_guard ops = true ->
+  wf_history ops = true -> no_guard_fx fx ops = true ->
   forall pinned_lookup path conditions r,
     find_rule pinned_lookup (index (run fx ops)) path conditions = Some r ->
     In (r_def r) (get_set (current ops) (r_src r)).
@@ -67,7 +68,7 @@ Print Assumptions C06_deleted_never_match.
 
 (** same-source constraint: the rules sharing a path expression come from one rule set *)
 Theorem C06_same_source_constraint : forall fx ops,
-  wf_history ops = true -> no_guard ops = true ->
+  wf_history ops = true -> no_guard_fx fx ops = true ->
   forall q n x y, get (index (run fx ops)) q = Some n -> In x (vals n) -> In y (vals n) -> rt_src x = rt_src y.
 Proof. exact node_has_one_source. Qed.
 Print Assumptions C06_same_source_constraint.
@@ -118,12 +119,21 @@ Theorem C06_F6_refuted : exists ops meth path,
 Proof. exists w_F6, 0, "/p"%string. destruct w_F6_ok as (A & B & C & D). rewrite C, D. repeat split; auto. discriminate. Qed.
 Print Assumptions C06_F6_refuted.
 
+(** the witnesses of C06-F3, F4, F5 with the candidate repairs: history = fresh *)
+Example C06_repaired_examples :
+  m_answer (run all_fix w_F4) 0 "/d" = m_answer (fresh all_fix (current w_F4)) 0 "/d" /\
+  t_answer (t_run_fx all_fix w_F3) 0 "/a:b" = t_answer (t_run_fx all_fix (fresh_ops (current w_F3))) 0 "/a:b" /\
+  t_answer (t_run_fx all_fix w_F5) 0 "/a/1" = t_answer (t_run_fx all_fix (fresh_ops (current w_F5))) 0 "/a/1" /\
+  snd (t_step all_fix (t_run_fx all_fix w_F4p) (Delete 0)) = None.
+Proof. vm_compute. repeat split; reflexivity. Qed.
+Print Assumptions C06_repaired_examples.
+
 (** non-vacuity: a history with three sources, shared prefixes, wildcards, rules
     sharing an expression, an update changing one of several rules, a rejected
     creation, an invalid expression, deletion and re-creation satisfies the
     hypotheses of the theorems above *)
 Example C06_nonvacuous :
-  wf_history w_plain = true /\ no_guard w_plain = true /\
+  wf_history w_plain = true /\ no_guard_fx no_fix w_plain = true /\
   length (current w_plain) = 3 /\ length (index (run no_fix w_plain)) = 3 /\
   m_answer (run no_fix w_plain) 1 "/b/x" = Some 10 /\ m_answer (run no_fix w_plain) 0 "/ab/zz" = Some 50.
 Proof. destruct w_plain_ok as (A & B & _ & C & D & E & _ & F & _). repeat split; assumption. Qed.
